@@ -4,7 +4,7 @@ from hypothesis import strategies as st
 
 from .. import gen
 from ..core import SubCheck, Violation
-from ..oracle import lib, jsonable, arrays_equal, py_sel
+from ..oracle import LAYOUTS, layout, lib, jsonable, arrays_equal, py_sel
 
 RULE = ("Cases = dataclasses with 1-4 array fields (1-D or 2-D, int / float / bool dtypes, common length 0-8), a selector (int, "
         "slice with any bounds/step, int list with repeats and negatives, bool mask) or a list of 1-4 objects to concatenate "
@@ -226,13 +226,14 @@ def body_astype(case, ctx):
 
 def body_varlen(case, ctx):
     from npstructures import VarLenArray
-    arrs = [np.array(p["vals"][:p["r"] * p["w"]], dtype=case["dt"]).reshape(p["r"], p["w"]) for p in case["parts"]]
+    arrs = [layout(np.array(p["vals"][:p["r"] * p["w"]], dtype=case["dt"]).reshape(p["r"], p["w"]), p.get("layout", "C")) for p in case["parts"]]
+    ctx.label(*["layout:" + p.get("layout", "C") for p in case["parts"]])
     W = max(a.shape[1] for a in arrs)
     exp = np.concatenate([np.pad(a, ((0, 0), (W - a.shape[1], 0))) for a in arrs])
     ctx.label("parts:%d" % len(arrs), "same-width" if len({a.shape[1] for a in arrs}) == 1 else "different-widths",
               "zero-row-part" if any(a.shape[0] == 0 for a in arrs) else "all-have-rows")
     ctx.nt(len({a.shape[1] for a in arrs}) > 1)
-    got = lib(lambda: np.concatenate([VarLenArray(a.copy()) for a in arrs]))
+    got = lib(lambda: np.concatenate([VarLenArray(a.copy(order="K")) for a in arrs]))
     if not got.ok or not isinstance(got.value, VarLenArray):
         raise Violation("varlen:result", got=got.brief())
     g = np.asarray(got.value.array)
@@ -306,7 +307,7 @@ def varlen_case(draw, tier):
     parts = []
     for _ in range(draw(st.integers(1, 4))):
         r, w = draw(st.integers(0, 4)), draw(st.integers(1, 5))
-        parts.append({"r": r, "w": w, "vals": draw(gen.flat_values(dt, 20, specials=False))})
+        parts.append({"r": r, "w": w, "vals": draw(gen.flat_values(dt, 20, specials=False)), "layout": draw(st.sampled_from(LAYOUTS))})
     return {"dt": dt, "parts": parts}
 
 
